@@ -88,6 +88,23 @@ def C02(ck):
     kzreader.record(ck, 'c02', 2000 if T else 300, thorough=T)
     kzreader.record(ck, 'c02x', 0, thorough=T)
     kzreader.record(ck, 'c02p', 0, thorough=T)
+    # the checksum functions cover every byte of a block: v2/hash equals an independent implementation on every length
+    kzh = kzv.build_harness()
+    hf = os.path.join(kzv.BUILD, 'tlc', 'hash_%d.ndjson' % os.getpid())
+    rc, so, se, dt = kzv.run([kzh, 'hash', '-max', str(4200 if T else 1200), '-n', str(1000 if T else 100), '-seed', str(ck.seed), '-out', hf], timeout=3600)
+    if rc != 0:
+        raise kzv.ToolFailure('hash driver failed: ' + se[-1500:])
+    res = kzv.validate_trace('Trace_Format', hf, timeout=900)
+    if res.error or res.violated:
+        raise kzv.ToolFailure('Trace_Format failed on hash events: %s %s' % (res.error, res.violated))
+    tr = kzv.read_ndjson(hf)
+    for e, pred in _violations_from(res.out, tr)[:3]:
+        ck.violation({'kind': 'hash', 'pred': 'C02_checksum_does_not_cover_block', 'bits': e['bits'], 'n': e['n'], 'got': e['got'], 'want': e['want']},
+                     {'cmd': 'hash', 'event': e}, name='hash')
+    ck.cov['checksum_inputs'] = int(so.strip() or 0)
+    ck.cov['evaluations'] += int(so.strip() or 0)
+    ck.cov['states'] += res.distinct
+    os.remove(hf)
     ck.assumptions += ['a 32/64-bit checksum collision on a damaged block is not distinguished from a benign modification',
                        'modifications are confined to block payloads as located by harness/kzfmt (spec: KzFormat)']
 
@@ -169,7 +186,7 @@ def C04(ck):
     kzwriter.selftest_asis(ck, wcfg(2, 6, hint=1))
     scen = kzwriter.run_models(ck, cfgs, liveness_cfgs=[wcfg(3, 7, lens=(3, 5))])
     kzwriter.replay(ck, scen)
-    kzwriter.record(ck, 'c04', 120 if T else 14, thorough=T)
+    kzwriter.record(ck, 'c04', 140 if T else 25, thorough=T)
     ck.assumptions += ['E_Local (transform + entropy coding of one block) is treated as a function of the block: the record-mode digests test it']
 
 
@@ -927,7 +944,15 @@ def C10(ck):
         if rc != 0:
             raise kzv.ToolFailure('fmt driver failed: ' + se[-1500:])
         nfmt = int(so.strip() or 0)
+        hashf = os.path.join(base, 'hash.ndjson')
+        rc, so, se, dt = kzv.run([kzh, 'hash', '-max', str(4200 if T else 1200), '-n', str(2000 if T else 200), '-seed', str(ck.seed), '-out', hashf], timeout=3600)
+        if rc != 0:
+            raise kzv.ToolFailure('hash driver failed: ' + se[-1500:])
+        nhash = int(so.strip() or 0)
+        ck.cov['checksum_inputs'] = nhash
+        nfmt += nhash
         with open(tracef, 'a') as fh:
+            fh.write(open(hashf).read())
             for e in events:
                 fh.write(json.dumps(e) + '\n')
         res = kzv.validate_trace('Trace_Format', tracef, timeout=1800)
